@@ -62,6 +62,10 @@ def gen_plan(seed, tier):
         style = rng.choice(['compatible', 'conflict', 'conflict', 'cyclic'])
         n = 1 if which == 'not_' else rng.choice([1, 2, 2, 3, 4])
         members = [gen_member(rng, dim, style) for _ in range(n)]
+        if which == 'not_' and rng.random() < 0.3:
+            # a member that accepts every vector it can be evaluated at, and raises ZeroDivisionError on a plane that the
+            # combinator's randomiser hits when a coordinate is -1, 0 or 1: not_ may never claim that it changes anything
+            members[0] = {'family': 'zdiv', 'form': 'pure', 'params': {'i': rng.randrange(dim)}}
         if which == 'or_' and rng.random() < 0.25:
             # or_ accepts a vector only when re-applying a member to its own result changes nothing: a slowly converging
             # member (a contraction) must be iterated to its exact fixed point, or given up on -- never accepted early
@@ -81,6 +85,9 @@ def gen_plan(seed, tier):
         for _ in range(rng.randint(1, 4)):     # the same combinator object is called several times
             xs.append({'x': [rng.choice([0.0, 1.0, -1.0, gen.r2(rng, -5, 5), gen.r2(rng, -5, 5), 0.5]) for _ in range(dim)],
                        'as': rng.choice(['list', 'list', 'array'])})
+        if members[0]['family'] == 'zdiv':
+            for inp in xs:
+                inp['x'] = [rng.choice([0.0, 0.0, 1.0, -1.0, 3.0]) for _ in range(dim)]
         calls.append({'which': which, 'members': members, 'maxiter': rng.choice([1, 2, 3, 5, 10, 100, None]),
                       'inputs': xs, 'hooks': rng.choice(['both', 'both', 'exit', 'fail', 'none'])})
     # the scripted draw source: a seeded stream with legal extremes mixed in
@@ -178,7 +185,10 @@ def _run(plan, run, violate, stats, d):
             elif call['hooks'] == 'fail': success = not fired
             if fired and fired[-1][1] != res:
                 violate('neither_or_both_paths_fired', 'call %d %s: the hook got %r but %r was returned' % (ci, which, fired[-1][1], res), **tags)
-            fixed = [tuple(con_apply(m, list(res))) == res for m in call['members']]
+            def _fixed(m):
+                try: return tuple(con_apply(m, list(res))) == res
+                except ZeroDivisionError: return True      # cannot be evaluated there: certainly not 'changed by the member'
+            fixed = [_fixed(m) for m in call['members']]
             if success is True:
                 stats['success'] += 1
                 ok = all(fixed) if which == 'and_' else (any(fixed) if which == 'or_' else not fixed[0])
